@@ -16,6 +16,7 @@ import Mimic.Variables
 import Mimic.Extracted.Variables
 import Mimic.Charset
 import Mimic.Catalog
+import Mimic.Reply
 import Mimic.Extracted.Catalog
 import Mimic.Extracted.Session
 import Mimic.Extracted.Charset
@@ -715,6 +716,38 @@ def catOps (st : St) : List String → St × String
   | ["ordinals", tbl, db] => (st, ",".intercalate (((Mimic.Catalog.withOrdinals [] st.catalog).filter (fun p => p.1.tbl == tbl && p.1.db == db)).map (fun p => s!"{p.1.name}:{p.2}")))
   | _ => (st, "bad-op")
 
+/-! reply packets -/
+
+def repOps (_st : St) : List String → String
+  | ["ok", p41, tr, eof, a, l, s, w] => match a.toNat?, l.toNat?, s.toNat?, w.toNat? with
+      | some a, some l, some s, some w => hex (Mimic.Reply.encOk (p41 == "1") (tr == "1") ⟨eof == "1", a, l, s, w⟩)
+      | _, _, _, _ => "bad-op"
+  | ["eof", p41, w, s] => match w.toNat?, s.toNat? with
+      | some w, some s => hex (Mimic.Reply.encEof (p41 == "1") ⟨w, s⟩)
+      | _, _ => "bad-op"
+  | ["err", p41, c, stt, msg] => match c.toNat?, unhex stt, unhex msg with
+      | some c, some stt, some msg => hex (Mimic.Reply.encErr (p41 == "1") ⟨c, stt, msg⟩)
+      | _, _, _ => "bad-op"
+  | ["coldef", sc, tb, ot, nm, on, cs, ln, ty, fg, dc, df] =>
+      match unhex sc, unhex tb, unhex ot, unhex nm, unhex on with
+      | some sc, some tb, some ot, some nm, some on =>
+        match cs.toNat?, ln.toNat?, ty.toNat?, fg.toNat?, dc.toNat? with
+        | some cs, some ln, some ty, some fg, some dc =>
+          let d : Option (Option (Option (List UInt8))) :=
+            if df = "x" then some none else if df = "N" then some (some none) else (unhex df).map (fun b => some (some b))
+          match d with
+          | some d =>
+            let c : Mimic.Reply.ColDef := ⟨sc, tb, ot, nm, on, cs, ln, ty, fg, dc, d⟩
+            let b := Mimic.Reply.encColDef c
+            hex b ++ " " ++ (match Mimic.Reply.decColDef d.isSome b with | some c' => (if c' = c then "roundtrip" else "differs") | none => "undecodable")
+          | none => "bad-op"
+        | _, _, _, _, _ => "bad-op"
+      | _, _, _, _, _ => "bad-op"
+  | ["dec-coldef", fl, b] => match unhex b with
+      | some b => (match Mimic.Reply.decColDef (fl == "1") b with | some c => "ok " ++ hex c.name | none => "undecodable")
+      | none => "bad-op"
+  | _ => "bad-op"
+
 def handle (st : St) (line : String) : St × String :=
   match words line with
   | "ctl" :: rest => ctl st rest
@@ -731,6 +764,7 @@ def handle (st : St) (line : String) : St × String :=
   | "var" :: rest => varOps st rest
   | "cs" :: rest => (st, csOps st rest)
   | "cat" :: rest => catOps st rest
+  | "rep" :: rest => (st, repOps st rest)
   | _ => (st, "bad-op")
 
 /-! several connections: `@<i> <line>` runs the line on connection i's own state (the step of `Mimic.Server.runInter`) -/
